@@ -50,6 +50,13 @@ concurrently on threads: a run of a re-used object must be the run of a fresh ob
     (trace, outcome, final context); after every history the definition the loader cache returns for
     every (parent, name) request equals a fresh load of the file pypyr's search order prescribes.
 
+(b3) THE LOADERS THEMSELVES (no driver; the model's assumption `Loader.TextOnly`, lean/PypyrModel/LoadHist.lean).
+    "Held by process-global state" extended from objects of a context to STATE that changes what a later load
+    returns: 2-5 pipeline texts carrying yaml directives, tags, anchors and plain scalars whose reading depends
+    on parser state are loaded and run alone in a pristine process (impl_c12.Pristine) and then in several orders,
+    with repeats and cache clears, in the harness process; every cached definition, every direct loader call and
+    every run after a history must equal the pristine one (deep equality including node classes and yaml tags).
+
 (c) THREADS.  2-3 runs on real threads, each with its own context, hand-off at the probe steps AND INSIDE
     steps: inside the formatting of a large mapping (`contextSetf` whose 5-12 values are `!py` expressions
     calling vobs.tick) and inside a foreach (the probe step under a foreach decorator), still
@@ -106,6 +113,13 @@ ASSUMPTIONS = [
     'no yaml anchors shared between two `in` values or two foreach items; dict keys are strings; values without '
     'formatting expressions (formatting is C08/C09)',
     'special tag objects (!py, !sic, !jsonify) are treated as leaves of a definition',
+    'THE LOADER IS A FUNCTION OF THE FILE TEXT ALONE (Loader.TextOnly in lean/PypyrModel/LoadHist.lean): an assumption of '
+    'the model, not a theorem - the yaml library is not modelled. Props/C12.lean section 11 proves what follows from it; '
+    'the stream `loads` checks the assumption itself on the real file and string loaders: a definition obtained after a '
+    'history of loads, cache clears and runs in the harness process must be deep-equal (classes and yaml tags of every '
+    'node included) to the definition obtained for that text alone in a pristine process, over texts with %YAML / %TAG '
+    'directives, document markers, anchors, merge keys, tags and version-dependent plain scalars. Limits: the texts come '
+    'from a fixed vocabulary; custom loaders are not exercised; state that only changes log output is not observed',
 ]
 
 PARSER_ARGS_SIG = {'site': 'shortcut.parser_args', 'parser': 'pypyr.parser.list'}
@@ -1015,10 +1029,370 @@ def check_orders(env, res, sb, case, tag='replay'):
 
 
 # ---------------------------------------------------------------------------------------------
+# (b3) the loaders themselves: a definition loaded after a history = the definition loaded first
+# ---------------------------------------------------------------------------------------------
+#
+# The model takes "what the loaders produced" as given and assumes the loader is a function of the file text
+# alone (`Loader.TextOnly`, lean/PypyrModel/LoadHist.lean; Props/C12.lean section 11 proves what follows from
+# it). This stream checks the ASSUMPTION on the real loaders. A case is 2-5 pipeline texts (real files, some
+# handed to pypyr.loaders.string as text) that carry what a yaml parser keeps state about - `%YAML` / `%TAG`
+# directives, document markers, anchors / aliases / merge keys, tags - and plain scalars whose reading depends on
+# that state (yes/no/on/off/y/n, sexagesimals, leading-zero / 0o / underscore numbers, timestamps, ~ …), in values,
+# keys, foreach items and decorator values; some pipelines pype others. Reference: every text is loaded
+# (through the loader cache, as a run does) and then run ALONE in a pristine process (impl_c12.Pristine: a helper
+# that has imported the tree under test and done nothing else; one forked child per text). In the harness process
+# the texts are run in several orders with repeats and cache clears in between (cache misses in varying orders on
+# top of whatever the process has loaded before); after every run the definition the cache holds for every
+# request made so far, and at the end of every order the loader function called past the cache for every text, must
+# be deep-equal - classes and tags included - to the pristine load, and every run's outcome and final context equal to
+# the pristine run.
+
+Y_SENSITIVE = ['no', 'yes', 'on', 'off', 'y', 'n', 'Y', 'N', 'No', 'YES', 'On', 'OFF', 'true', 'False', '1:30', '190:20:30',
+               '-1:30', '1:30.5', '0755', '0o17', '017', '0b101', '0x1F', '1_000', '0x_1f', '+12', '1e3', '1.5e+3',
+               '685_230.15', '.inf', '-.INF', '.nan', '~', 'null', '2001-12-14', '2001-12-14 21:59:43.10 -5', '=', '1.',
+               '.5', '12e03', '0o8', '08', '1__0', '0b1_1']
+Y_NEUTRAL = ["'no'", '"1:30"', 'se', 'dk', '12', 'abc def', '!!str no', '!!int "12"', '!!bool "yes"', '!!float 1', "'0755'",
+             '!!str 0755', '3.25', 'x1']
+Y_TAGGED = ['!sic "{seen}"', '!py len(seen)', '!jsonify {a: 1}', '!!set {a, b}', '!!str 1:30', '!e!thing v', '!local v',
+            '!!timestamp 2001-12-14']
+Y_KEYS = ['n', 'y', 'no', 'on', '0755', '1:30', '~', '1_0', 'plain', 'k']
+Y_HEADERS = [('', 50), ('%YAML 1.1\n---\n', 20), ('%YAML 1.2\n---\n', 10), ('---\n', 6),
+             ('%TAG !e! tag:example.com,2000:app/\n---\n', 6), ('%YAML 1.1\n%TAG !e! tag:example.com,2000:app/\n---\n', 4),
+             ('# a comment first\n%YAML 1.1\n--- # marker with a comment\n', 4)]
+
+
+def y_scalar(rng, sens=0.6):
+    r = rng.random()
+    if r < sens:
+        return rng.choice(Y_SENSITIVE)
+    if r < sens + 0.08:
+        return rng.choice(Y_TAGGED)
+    return rng.choice(Y_NEUTRAL)
+
+
+def y_flow(rng, n=None):
+    return '[' + ', '.join(rng.choice(Y_SENSITIVE + ['se', 'dk']) for _ in range(n or rng.randint(1, 4))) + ']'
+
+
+def load_text(rng, marker, children=(), header=None, plain=False):
+    """One pipeline text. `plain` = nothing in it depends on parser state (a control)."""
+    if header is None:
+        header = '' if plain else rng.choices([h for h, _ in Y_HEADERS], [w for _, w in Y_HEADERS])[0]
+    sens = 0.0 if plain else 0.6
+    L = [header + '# ' + marker, 'steps:']
+    anchored = False
+    for _ in range(rng.randint(1, 3)):
+        k = rng.random()
+        if k < 0.45:
+            L += ['  - name: pypyr.steps.set', '    in:', '      set:']
+            for j in range(rng.randint(1, 4)):
+                r = rng.random()
+                if r < 0.5:
+                    L.append(f'        v{j}: {y_scalar(rng, sens)}')
+                elif r < 0.65:
+                    L.append(f'        v{j}: {y_flow(rng) if not plain else "[se, dk]"}')
+                elif r < 0.75 and not plain:
+                    L.append(f'        v{j}: {{{rng.choice(Y_KEYS)}: {rng.choice(Y_SENSITIVE)}, z: 1}}')
+                elif r < 0.85 and not plain and not anchored:
+                    anchored = True
+                    L += [f'        v{j}: &b{marker} {{mode: {rng.choice(Y_SENSITIVE)}, flag: {rng.choice(Y_SENSITIVE)}}}',
+                          f'        w{j}: *b{marker}', f'        m{j}:', f'          <<: *b{marker}',
+                          f'          extra: {rng.choice(Y_SENSITIVE)}']
+                elif r < 0.9 and not plain:
+                    L.append(f'        {rng.choice(Y_KEYS)}: {y_scalar(rng, sens)}')
+                elif r < 0.93 and not plain:
+                    L.append(f'        v{j}: *undefined{j}')
+                else:
+                    L += [f'        v{j}: |', f'          no', f'          1:30']
+        elif k < 0.7:
+            L += ['  - name: pypyr.steps.append', f'    foreach: {y_flow(rng) if not plain else "[se, dk]"}',
+                  '    in: {append: {list: seen, addMe: "' + marker + ':{i}"}}']
+        else:
+            L += ['  - name: pypyr.steps.append', '    in: {append: {list: seen, addMe: ' + marker + '}}']
+            if not plain:
+                L.append(f'    {rng.choice(["run", "skip", "swallow"])}: {rng.choice(["on", "off", "yes", "no", "y", "n", "true", "1", "0"])}')
+    for c in children:
+        L += ['  - name: pypyr.steps.pype', '    in: {pype: {name: ' + c + '}}']
+    L.append('  - name: pypyr.steps.append')
+    L.append('    in: {append: {list: seen, addMe: end-' + marker + '}}')
+    text = '\n'.join(L) + '\n'
+    if not plain and rng.random() < 0.08:
+        text += '...\n'
+    return text
+
+
+def loads_case(rng, texts, loaders, children, orders):
+    files = [{'name': f'p{i}', 'text': t, 'loader': loaders[i], 'children': list(children.get(i, []))}
+             for i, t in enumerate(texts)]
+    return {'kind': 'loads', 'files': files, 'orders': orders}
+
+
+LEGACY = '%YAML 1.1\n---\n# exported by older tooling\nsteps:\n  - name: pypyr.steps.set\n    in:\n      set:\n        legacyDone: true\n'
+REPORT = ('steps:\n  - name: pypyr.steps.set\n    in:\n      set:\n        countries: [se, no, dk]\n        window: 1:30\n'
+          '        mode: 0755\n  - name: pypyr.steps.append\n    foreach: [se, no, dk]\n    in:\n      append:\n'
+          '        list: seen\n        addMe: \'{i}\'\n')
+V12 = '%YAML 1.2\n---\nsteps:\n  - name: pypyr.steps.set\n    in: {set: {modern: yes, n: 0o17}}\n'
+DECOS = ('steps:\n  - name: pypyr.steps.append\n    in: {append: {list: seen, addMe: a}}\n    run: on\n'
+         '  - name: pypyr.steps.append\n    in: {append: {list: seen, addMe: b}}\n    skip: n\n'
+         '  - name: pypyr.steps.assert\n    in: {assert: {this: false}}\n    swallow: yes\n'
+         '  - name: pypyr.steps.append\n    in: {append: {list: seen, addMe: c}}\n')
+KEYS = 'steps:\n  - name: pypyr.steps.set\n    in:\n      set:\n        n: 1\n        0755: x\n        k: {y: 2, 1:30: z}\n'
+TAGDEF = '%TAG !e! tag:example.com,2000:app/\n---\nsteps:\n  - name: pypyr.steps.set\n    in: {set: {t: !e!thing v}}\n'
+TAGUSE = 'steps:\n  - name: pypyr.steps.set\n    in: {set: {u: !e!thing w, l: !local x}}\n'
+ANCDEF = 'steps:\n  - name: pypyr.steps.set\n    in:\n      set:\n        a: &shared [1, 2]\n        b: *shared\n'
+ANCUSE = 'steps:\n  - name: pypyr.steps.set\n    in:\n      set:\n        c: *shared\n'
+PARENT = 'steps:\n  - name: pypyr.steps.pype\n    in: {pype: {name: p1}}\n  - name: pypyr.steps.set\n    in: {set: {after: no}}\n'
+
+
+def load_cases(env):
+    rng = env.rng
+    F, S = 'file', 'string'
+    yield loads_case(rng, [LEGACY, REPORT], [F, F], {}, [[1, 0, 1], [0, 1], ['clear', 1, 0, 'clear', 1], [{'par': [0, 1, 0, 1]}, 1]]), 'directed:yaml11-then-plain'
+    yield loads_case(rng, [LEGACY, REPORT], [S, F], {}, [[0, 1], [1, 0, 1]]), 'directed:yaml11-string-loader-then-file'
+    yield loads_case(rng, [LEGACY, REPORT], [F, S], {}, [[0, 1], [1, 0, 1]]), 'directed:yaml11-file-then-string-loader'
+    yield loads_case(rng, [PARENT, LEGACY, REPORT], [F, F, F], {0: ['p1']}, [[0, 2], [2, 0], [1, 2]]), 'directed:yaml11-pype-child'
+    yield loads_case(rng, [LEGACY, V12, REPORT], [F, F, F], {}, [[0, 1, 2], [0, 2, 1], [1, 0, 2]]), 'directed:yaml12-flips-back'
+    yield loads_case(rng, [LEGACY, DECOS, KEYS], [F, F, F], {}, [[0, 1, 2], [1, 2, 0], [2, 0, 1, 'clear', 1]]), 'directed:decorators-and-keys'
+    yield loads_case(rng, [TAGDEF, TAGUSE], [F, F], {}, [[0, 1], [1, 0], [0, 'clear', 1]]), 'directed:tag-handles'
+    yield loads_case(rng, [ANCDEF, ANCUSE], [F, F], {}, [[0, 1], [1, 0]]), 'directed:anchors'
+    for _ in range(env.n(26, 400)):
+        n = rng.randint(2, 5)
+        children, texts, loaders = {}, [], []
+        for i in range(n):
+            loaders.append(S if rng.random() < 0.25 else F)
+        for i in range(n):
+            if loaders[i] == F and rng.random() < 0.3:
+                cands = [j for j in range(i + 1, n) if loaders[j] == F]
+                if cands:
+                    children[i] = [f'p{j}' for j in rng.sample(cands, rng.randint(1, min(2, len(cands))))]
+            texts.append(load_text(rng, f'm{i}', children.get(i, ()), plain=rng.random() < 0.15))
+        orders = []
+        for _ in range(env.n(3, 5)):
+            o = [rng.randrange(n) for _ in range(rng.randint(2, n + 2))]
+            if rng.random() < 0.4:
+                o.insert(rng.randint(1, len(o)), 'clear')
+            orders.append(o)
+        if rng.random() < 0.5:
+            par = [rng.randrange(n) for _ in range(rng.randint(2, 4))]
+            orders.append([{'par': par}] + [rng.randrange(n) for _ in range(rng.randint(0, 2))])
+        yield loads_case(rng, texts, loaders, children, orders), 'random'
+
+
+def run_parallel(specs, root, timeout=20):
+    import threading
+    out = [{'err': 'run-never-returned'} for _ in specs]
+    gate = threading.Barrier(len(specs))
+
+    def work(k):
+        try:
+            gate.wait(5)
+        except threading.BrokenBarrierError:
+            pass
+        out[k] = I.load_probe(specs[k], root)
+    ts = [threading.Thread(target=work, args=(k,), daemon=True) for k in range(len(specs))]
+    old = sys.getswitchinterval()
+    sys.setswitchinterval(1e-5)
+    try:
+        for t in ts:
+            t.start()
+        for t in ts:
+            t.join(timeout)
+    finally:
+        sys.setswitchinterval(old)
+    return out
+
+
+_PRISTINE = {}
+
+
+def pristine():
+    z = _PRISTINE.get(os.getpid())
+    if z is None or z.p is None:
+        for k in list(_PRISTINE):
+            _PRISTINE.pop(k)          # a helper inherited through fork belongs to the parent
+        z = _PRISTINE[os.getpid()] = I.Pristine()
+    return z
+
+
+def close_pristine():
+    z = _PRISTINE.pop(os.getpid(), None)
+    if z is not None:
+        z.close()
+
+
+LOAD_SIG = {'monitor': 'load-depends-on-history', 'site': 'pipeline-loader'}
+
+
+def typed_diff(a, b, path=()):
+    """First place at which two `impl_c12.typed` snapshots differ: (path, there in a, there in b)."""
+    if canon(a) == canon(b):
+        return None
+    if isinstance(a, dict) and isinstance(b, dict) and a.get('T') == b.get('T') and a.get('tag') == b.get('tag'):
+        for f in ('d', 'l', 's'):
+            if f in a and f in b and len(a[f]) == len(b[f]):
+                for i, (x, y) in enumerate(zip(a[f], b[f])):
+                    if f == 'd':
+                        if canon(x[0]) != canon(y[0]):
+                            return list(path) + ['key#%d' % i], x[0], y[0]
+                        d = typed_diff(x[1], y[1], path + (x[0][1] if isinstance(x[0], list) and len(x[0]) == 2 else i,))
+                    else:
+                        d = typed_diff(x, y, path + (i,))
+                    if d is not None:
+                        return d
+        if 'value' in a and 'value' in b:
+            d = typed_diff(a['value'], b['value'], path + ('value',))
+            if d is not None:
+                return d
+    return list(path), a, b
+
+
+def load_diff(want, got):
+    """want / got: observations of impl_c12.load_probe."""
+    for f in ('def', 'final'):
+        if f in want and f in got:
+            d = typed_diff(want[f], got[f])
+            if d is not None:
+                return f'at {d[0]}: {json.dumps(d[2])[:160]} here vs {json.dumps(d[1])[:160]} alone in a pristine process'
+    return f'{json.dumps(got)[:200]} here vs {json.dumps(want)[:200]} alone in a pristine process'
+
+
+def check_loads(env, res, sb, case, tag='replay'):
+    import pypyr.moduleloader as ml
+    sb.ensure_vobs()
+    cwd = sb.scratch()
+    root = str(cwd)
+    saved_path, saved_known = list(sys.path), set(getattr(ml, '_known_dirs', ()))
+    files = case['files']
+    found, nruns, nloads = [], 0, 0
+
+    def target(i):
+        f = files[i]
+        return f['text'] if f['loader'] == 'string' else str(cwd / f['name'])
+
+    def spec(do, i, as_child_of=None):
+        f = files[i]
+        if as_child_of is not None:
+            return {'do': do, 'loader': 'file', 'name': f['name'], 'parent': root}
+        return {'do': do, 'loader': f['loader'], 'name': target(i), 'parent': None}
+
+    index = {f['name']: i for i, f in enumerate(files)}
+
+    def closure(i, acc):
+        """Requests a run of file i makes: [(file index, parent-or-None)]."""
+        for c in files[i]['children']:
+            j = index[c]
+            if (j, i) not in acc:
+                acc.append((j, i))
+                closure(j, acc)
+        return acc
+
+    def short(o):
+        return json.dumps(o)[:200]
+
+    try:
+        for f in files:
+            if f['loader'] == 'file':
+                (cwd / (f['name'] + '.yaml')).write_text(f['text'])
+        ref = pristine().jobs([[spec('get', i), spec('run', i)] for i in range(len(files))], root)
+        for i, r in enumerate(ref):
+            if not isinstance(r, list):
+                raise common.Infra(f'C12 loads: the pristine process gave no result for text {i}: {r}')
+        ref_def = [r[0] for r in ref]
+        ref_run = [r[1] for r in ref]
+        hist = []          # everything this case has done in this process so far (the orders follow one another)
+        for order in case['orders']:
+            sb.admin.clear_all()
+            if hist:
+                hist.append('clear')
+            requested = []
+            for item in order:
+                if item == 'clear':
+                    sb.admin.clear_all()
+                    hist.append('clear')
+                    requested = []
+                    continue
+                if isinstance(item, dict):
+                    # the same loads at the same time: one thread per text, free-running with a very short switch
+                    # interval (what a correct loader returns does not depend on the interleaving; which
+                    # interleavings occur is up to the interpreter)
+                    idxs = item['par']
+                    got_par = run_parallel([spec('run', i) for i in idxs], root)
+                    label = 'par[' + ','.join(files[i]['name'] for i in idxs) + ']'
+                    nruns += len(idxs)
+                    for i, g in zip(idxs, got_par):
+                        if canon(g) != canon(ref_run[i]):
+                            found.append((f"{files[i]['name']} run on a thread of its own at the same time as the other runs of {label}, after "
+                                          f"{hist}, differs from its run alone in a pristine process, {load_diff(ref_run[i], g)}",
+                                          dict(LOAD_SIG, what='run-concurrent')))
+                            break
+                    hist.append(label)
+                    for i in idxs:
+                        for q in [(i, None)] + closure(i, []):
+                            if q not in requested:
+                                requested.append(q)
+                    continue
+                got = I.load_probe(spec('run', item), root)
+                nruns += 1
+                hist.append(files[item]['name'])
+                if canon(got) != canon(ref_run[item]):
+                    what = 'outcome' if got.get('err') != ref_run[item].get('err') or 'err' in got else 'final context'
+                    found.append((f"{files[item]['name']} run after {hist[:-1]} in this process differs in its {what} from its run alone "
+                                  f"in a pristine process, {load_diff(ref_run[item], got)}",
+                                  dict(LOAD_SIG, what='run-' + what.split()[0])))
+                for q in [(item, None)] + closure(item, []):
+                    if q not in requested:
+                        requested.append(q)
+                # every definition the cache holds for the requests made so far (cache hits: no new load)
+                for j, par in requested:
+                    c = I.load_probe(spec('get', j, par), root)
+                    nloads += 1
+                    if canon(c) != canon(ref_def[j]):
+                        found.append((f"after the history {hist} the cached definition of {files[j]['name']}"
+                                      + (f" (as child of {files[par]['name']})" if par is not None else '')
+                                      + f" is not what its loader produces for that text alone: {load_diff(ref_def[j], c)}",
+                                      dict(LOAD_SIG, what='cached-definition')))
+                        break
+            # the loader function past every cache, after this history
+            for j in range(len(files)):
+                d = I.load_probe(spec('direct', j), root)
+                nloads += 1
+                if canon(d) != canon(ref_def[j]):
+                    found.append((f"the loader called for {files[j]['name']} after the history {hist} does not give the definition it gives "
+                                  f"first: {load_diff(ref_def[j], d)}",
+                                  dict(LOAD_SIG, what='direct-load')))
+                    break
+        sb.admin.clear_all()
+    finally:
+        sys.path[:] = saved_path
+        if hasattr(ml, '_known_dirs'):
+            ml._known_dirs.clear()
+            ml._known_dirs.update(saved_known)
+        shutil.rmtree(cwd, ignore_errors=True)
+    res.case(case)
+    res.count('loads:' + tag)
+    res.count('loads:runs', nruns)
+    res.count('loads:definition-comparisons', nloads)
+    res.count('loads:texts=' + str(len(files)))
+    for f, r, d in zip(files, ref_run, ref_def):
+        res.count('loads:loader=' + f['loader'])
+        res.count('loads:pristine-run:' + ('ok' if 'err' not in r else r['err']))
+        res.count('loads:pristine-load:' + ('ok' if 'err' not in d else d['err']))
+        for h in ('%YAML 1.1', '%YAML 1.2', '%TAG'):
+            if h in f['text'].split('steps:')[0]:
+                res.count('loads:directive:' + h)
+    seen = set()
+    for detail, sig in found:
+        if canon(sig) in seen:
+            continue
+        seen.add(canon(sig))
+        res.violation(case, detail, signature=sig, impl={'pristine': [{'load': short(d), 'run': short(r)} for d, r in zip(ref_def, ref_run)]})
+
+
+# ---------------------------------------------------------------------------------------------
 # entry points
 # ---------------------------------------------------------------------------------------------
 
-CHECKERS = {'alias': check_alias, 'history': check_history, 'orders': check_orders, 'threads': check_threads}
+CHECKERS = {'alias': check_alias, 'history': check_history, 'orders': check_orders, 'loads': check_loads, 'threads': check_threads}
 
 
 CASE_TIMEOUT_S = float(os.environ.get('C12_CASE_TIMEOUT_S', '30'))     # a case takes well under a second
@@ -1101,6 +1475,7 @@ def _run_cases(env, res, cases):
             signal.setitimer(signal.ITIMER_REAL, 0)
             signal.signal(signal.SIGALRM, old)
         sb.close()
+        close_pristine()
 
 
 def _new_sandbox(sb, env=None):
@@ -1143,10 +1518,17 @@ def run(env, res):
                 'names with sub-directories, plus signs and dot-dot, child files next to the parent / in cwd / in '
                 'cwd/pipelines / missing, cwd set by the harness: every root solo in a fresh cache, then permutations and '
                 'a history with repeats with caches on, each run vs its solo run, cached definition per (parent, name) vs '
-                'a fresh load of the file the search order prescribes; (c) 2-3 runs on real threads (same entry: the same '
+                'a fresh load of the file the search order prescribes; (b3) the loaders themselves (assumption '
+                'Loader.TextOnly): 2-5 pipeline texts with %YAML/%TAG directives, anchors, merge keys, tags and plain '
+                'scalars whose reading depends on parser state (values, keys, foreach items, decorator values), file and '
+                'string loader, pype children; each loaded and run alone in a PRISTINE process, then run in 2-5 orders '
+                'with repeats and cache clears in this process: every cached definition after every run and every '
+                'direct loader call after every order deep-equal (classes and tags included) to the pristine load, every '
+                'run equal to the pristine run; half of the cases also run 2-4 of the texts at the same time on free-running '
+                'threads (cold caches, short switch interval); (c) 2-3 runs on real threads (same entry: the same '
                 'Pipeline object when via=object) under 6-12 schedules per pipeline set, cold and warm caches, each vs its '
                 'solo run. non-trivial = distinct (pipelines, config, entries, order, via, schedule)')
-    cases = list(alias_cases(env)) + list(history_cases(env)) + list(order_cases(env)) + list(thread_cases(env))
+    cases = list(alias_cases(env)) + list(history_cases(env)) + list(order_cases(env)) + list(load_cases(env)) + list(thread_cases(env))
     only = os.environ.get('C12_STREAMS')          # debugging / self-test: run a subset of the streams
     if only:
         cases = [c for c in cases if c[0]['kind'] in only.split(',')]
